@@ -24,6 +24,7 @@ import (
 	"verif/ev"
 	"verif/mcx"
 	"verif/vrt"
+	"verif/worlds/track"
 	"verif/worlds/udpw"
 )
 
@@ -122,6 +123,8 @@ func scenario(c cfg) *mcx.Scenario {
 					ctxs[i] = cancel
 					vrt.App(fmt.Sprintf("observer%d", i), func() {
 						o, err := w.CC.Observe(ctx, fmt.Sprintf("/obs%d", i), func(n *pool.Message) {
+							track.Hold(n, "notification inside a callback")
+							defer track.Unhold(n)
 							b, _ := n.ReadBody()
 							obs[i].log = append(obs[i].log, string(b))
 						})
